@@ -98,6 +98,20 @@ CLAIMED['C12'] = dict(
          'judged (a proxy answers reads from its update cache).',
     design='6/C12')
 
+CLAIMED['C16'] = dict(
+    level='exploration',
+    text='Seeded search over 2..4 caller tasks (communicate, writeline, multicomm with delays) plus the poll thread '
+         'against real StringIO/BytesIO + AsynTcp and a scripted device (token echo, reply delays up to beyond the '
+         'time-out, garbage, silence, close before/inside/after a reply, refused reconnects), with network chunking and '
+         'pre-emption at lock operations and line events of io.py/asynconn.py. Checked: own reply per command (stale = '
+         'arrived before the command left), communicator lock (no overlapping in-flight windows, no foreign command '
+         'inside a multicomm), delays honoured, failures are communication errors within the time-out bound, reconnect '
+         'rate of callers, reconnect callbacks exactly once per reconnect, healing and poll resumption after faults stop.',
+    note='Trusted: simulation kernel, simulated TCP, scripted device. Bytes arriving after a command was sent cannot '
+         'be told from its reply by any implementation and are exempt. Known findings: is_connected set after a '
+         'concurrent close; two simultaneous reconnect attempts.',
+    design='6/C16')
+
 NOT_APPLICABLE = {
     'C01': 'pure function of (datatype, candidate, previous) - no schedule, clock, I/O or fault dimension for a simulator to decide',
     'C02': 'pure round-trip law over (datatype, value) - no schedule, clock, I/O or fault dimension',
